@@ -31,6 +31,10 @@ def one(ctx, p, exprs, meta):
     if dask:
         ds = ds.chunk({"x": max(1, nx // 2)})
     label, other = ("v1", "w1") if one_d else ("st", "w2")
+    isel0 = bool(p.get("isel0"))
+    if isel0:   # one time step selected: every variable is (x,), the reference series are scalars
+        ds = ds.isel(time=0)
+        label, other = "st", "w2"
     kw = dict(MODES[mode])
     if mode == "SubLabel":
         kw["subtract_from_label"] = other
@@ -49,6 +53,11 @@ def one(ctx, p, exprs, meta):
     ctx.case(("c20", repr(p)), sample=p)
     ctx.count(f"mode={mode}"); ctx.count(f"per={per}"); ctx.count("dask" if dask else "numpy")
     comp = lambda a: np.asarray(a.compute() if hasattr(a, "compute") else a)
+    # every returned array has the number of axes of the variable it was taken from (x_indices: one axis)
+    want_ndim = 1 if (mode == "XIdx" or one_d or isel0) else 2
+    flat = ([a for b, _ in secs for a in out[secgen.KEYS[b]]] if per == "stretch" else [out[secgen.KEYS[b]] for b, _ in secs] if per == "section" else [out])
+    if any(comp(a).ndim != want_ndim for a in flat):
+        ctx.violation(f"result-has-wrong-number-of-axes:{mode}:{per}", f"ufunc_per_section({mode}, calc_per={per}) returned arrays with {sorted(set(comp(a).ndim for a in flat))} axes for a {want_ndim}-d selection", p)
     if per == "stretch":
         impl = lst(lst(rows(comp(a)) for a in out[secgen.KEYS[b]]) for b, _ in secs)
         fn, eq = "u_stretch", "e4"
@@ -59,7 +68,7 @@ def one(ctx, p, exprs, meta):
         impl = rows(comp(out))
         fn, eq = "u_all", "e2"
     data, oth = rows(ds[label].values), rows(ds[other].values)
-    ref = lst(zlist(ds[k].values.astype(int)) for k in ("b0", "b1", "b2"))
+    ref = lst(zlist(np.atleast_1d(ds[k].values).astype(int)) for k in ("b0", "b1", "b2"))
     exprs.append(f"if {eq} ({fn} {mode} {data} {oth} (rf {ref}) {qlist(x)} {secgen.to_coq(secs)}) {impl} then 0 else 1")
     meta.append(p)
 
@@ -75,10 +84,24 @@ def gen(ctx):
         for mode in MODES:
             for per in ("stretch", "section", "all"):
                 for one_d in (False, True):
-                    if one_d and mode in ("TempErr", "RefBroadcast"):
-                        continue
+                    # an (x,) variable next to (time,) reference series has no temp_err; the (x,) case of those modes is one selected time step
                     yield {"x": [float(v) for v in x], "secs": [[b, [list(map(float, s)) for s in l]] for b, l in secs], "mode": mode, "per": per,
-                           "dask": bool(rng.random() < 0.4), "one_d": one_d}
+                           "dask": bool(rng.random() < 0.4), "one_d": one_d and mode not in ("TempErr", "RefBroadcast"),
+                           "isel0": one_d and mode in ("TempErr", "RefBroadcast")}
+    # one bath with three or four stretches listed in every order (cyclic orders are not their own inverse permutation)
+    import itertools
+    for k in range(2 if ctx.quick else 6):
+        x = np.arange(14 + 2 * k, dtype=float) * 0.5
+        base = [(0.5, 1.5), (2.5, 3.0), (4.0, 5.5), (6.0, 6.5)][: 3 + k % 2]
+        perms = list(itertools.permutations(range(len(base))))
+        if ctx.quick:
+            perms = [pm for pm in perms if pm in ((1, 2, 0), (2, 0, 1), (1, 2, 3, 0), (3, 0, 1, 2), (2, 3, 0, 1))] + perms[:1]
+        for pm in perms:
+            secs = [(int(k % 3), [base[i] for i in pm]), (int((k + 1) % 3), [(x[-2], x[-1])])]
+            for mode in MODES:
+                for per in ("stretch", "section", "all"):
+                    yield {"x": [float(v) for v in x], "secs": [[b, [list(map(float, st)) for st in l]] for b, l in secs], "mode": mode, "per": per,
+                           "dask": bool(rng.random() < 0.3), "one_d": False, "isel0": False}
 
 
 def run(ctx):
